@@ -97,6 +97,11 @@ def ty_of_annotation(ann, globs=None):
         return UNKNOWN
     if origin is typing.Literal:
         return PRIM
+    import collections.abc as cabc
+    if origin in (cabc.Sequence, cabc.Iterable, cabc.Collection, cabc.MutableSequence, cabc.Iterator):
+        return ListOf(ty_of_annotation(args[0], globs) if args else UNKNOWN)
+    if origin in (cabc.Mapping, cabc.MutableMapping):
+        return DictOf(ty_of_annotation(args[1], globs) if len(args) == 2 else UNKNOWN)
     if origin in (list, set, frozenset, typing.List, typing.Sequence) or ann in (list, set, frozenset):
         return ListOf(ty_of_annotation(args[0], globs) if args else UNKNOWN)
     if origin is dict or ann is dict:
@@ -155,6 +160,8 @@ class AV:
     iterkind: tuple | None = None      # ('enumerate', av) / ('zip', [avs]) / ('items', av) / ('range',)
     attrs: dict | None = None          # attribute types of a plain (non-pydantic) object built in this call
     display: str | None = None         # 'list' for a list display kept symbolic
+    exact: bool = False                # the run-time class is exactly the static one (no subclass possible)
+    alts: list | None = None           # class-hierarchy analysis: [(class, function)] a method call may reach
 
     def is_prim(self):
         if self.items is not None:
@@ -168,6 +175,10 @@ LIST_MUTATORS = {"append", "extend", "insert", "remove", "clear", "sort", "rever
                  "setdefault", "popitem", "__setitem__", "__delitem__"}
 LIST_POPS = {"pop"}
 LIST_READERS = {"get", "items", "keys", "values", "copy", "index", "count"}
+# methods of str / re / numbers that neither write their receiver nor their arguments
+PURE_METHOD_NAMES = {"replace", "format", "split", "rsplit", "strip", "lstrip", "rstrip", "startswith", "endswith", "lower",
+                     "upper", "join", "find", "search", "match", "fullmatch", "group", "groups", "isdigit", "encode",
+                     "decode", "is_integer", "bit_length", "title", "zfill", "partition", "splitlines", "casefold"}
 PURE_BUILTINS = {"len", "min", "max", "abs", "round", "sum", "any", "all", "isinstance", "issubclass", "int", "float",
                  "str", "bool", "print", "hasattr", "divmod", "pow", "repr", "id", "hash", "callable", "format"}
 AMBIENT = {"random", "time", "datetime", "os", "uuid", "secrets"}
@@ -192,6 +203,13 @@ class Program:
 
 FIELDS: dict[str, int] = {ELEM: 0}
 EXTERNALS: dict[str, int] = {}   # library functions that were called but not inlined (trusted pure)
+# functions of the library itself that are not inlined: they go through Lark / regular expressions and are modelled
+# functionally elsewhere (C15); trusted here to write none of their arguments
+TRUSTED_PURE = {"simaple.spec._math.evaluate_expression"}
+# subclasses defined here are not considered by the class-hierarchy analysis: the gear-set builder of the baseline
+# environment provider has its own patches (GearIdPatch fills a lazy name index of its GearRepository); they are not
+# part of the job / skill build path that the properties anchor
+CHA_EXCLUDE_MODULES = ("simaple.data.baseline",)
 
 
 def fid(name: str) -> int:
@@ -269,6 +287,7 @@ class Frame:
         self.self_cls = None
         self.yield_handler = None
         self.vars: dict[str, int] = {}
+        self.declared_prim: set[str] = set()
 
 
 class Lowerer:
@@ -277,6 +296,7 @@ class Lowerer:
         self.blocks: list[list] = [[]]
         self.stack: list = []          # functions being inlined (recursion guard)
         self.ambient: list[str] = []   # uses of ambient sources (random, time, ...)
+        self.rec_fn = None             # (function, class of self) of the recursive procedure, if any
         self.global_reads: list[str] = []
 
     # -- emission
@@ -342,12 +362,14 @@ class Lowerer:
         raw = inspect.getattr_static(cls, name)
         fn = raw
         selfv = self.prog.newvar("self")
-        self_av = AV(var=selfv, ty=Inst(cls))
+        self_av = AV(var=selfv, ty=Inst(cls), exact=True)
         sig_fn = inspect.unwrap(fn)
         params = list(inspect.signature(sig_fn).parameters.values())[1:]
         hints = typing.get_type_hints(sig_fn) if True else {}
         args = []
         for p in params:
+            if p.kind in (inspect.Parameter.VAR_KEYWORD, inspect.Parameter.VAR_POSITIONAL):
+                continue
             v = self.prog.newvar(p.name)
             ty = ty_of_annotation(hints.get(p.name, p.annotation), sig_fn.__globals__)
             if ty == PRIM:
@@ -374,10 +396,35 @@ class Lowerer:
                 return AV(items=[inner.items[0], AV(var=out, ty=ListOf(UNKNOWN))])
             raise Unsupported(f"decorator around {fn.__qualname__}")
         mod = getattr(fn, "__module__", "") or ""
+        qual = f"{mod}.{getattr(fn, '__qualname__', '')}"
+        if qual == "copy.deepcopy":
+            m = self.materialise(args[0]) if not args[0].is_prim() else None
+            if m is None:
+                return AV(ty=PRIM)
+            v = self.tmp("copy")
+            self.emit(("copy", v, m.var))
+            return AV(var=v, ty=m.ty, exact=m.exact)
+        if qual in TRUSTED_PURE:
+            for a in list(args) + list(kwargs.values()):
+                if a.var is None and not a.is_prim():
+                    self.materialise(a)
+            EXTERNALS[qual] = EXTERNALS.get(qual, 0) + 1
+            v = self.tmp(fn.__name__)
+            self.emit(("ext", v))
+            return AV(var=v, ty=UNKNOWN)
         if not mod.startswith(INLINE_MODULES):
             return self.call_external(fn, args, kwargs)
         if fn.__code__ in [f.__code__ for f in self.stack]:
-            raise Unsupported(f"recursion through {fn.__qualname__}")
+            # a recursive call: `call dst` of the designated procedure (one per program), lowered separately
+            if self.rec_fn is not None and self.rec_fn[0].__code__ is not fn.__code__:
+                raise Unsupported(f"two different recursive procedures ({self.rec_fn[0].__qualname__}, {fn.__qualname__})")
+            for a in list(args) + list(kwargs.values()):
+                if a.var is None and not a.is_prim():
+                    self.materialise(a)
+            self.rec_fn = (fn, self_cls)
+            d = self.tmp("rec")
+            self.emit(("call", d))
+            return AV(var=d, ty=UNKNOWN)
         if len(self.stack) > 12:
             raise Unsupported("inlining too deep")
         node = func_ast(fn)
@@ -402,15 +449,42 @@ class Lowerer:
         a = node.args
         names = [x.arg for x in a.posonlyargs + a.args]
         defaults = [None] * (len(names) - len(a.defaults)) + list(a.defaults)
-        if a.vararg or a.kwarg:
-            raise Unsupported(f"*args/**kwargs in {fn.__qualname__}")
+        if a.vararg:
+            raise Unsupported(f"*args in {fn.__qualname__}")
         given = dict(zip(names, args))
         if len(args) > len(names):
             raise Unsupported(f"too many arguments for {fn.__qualname__}")
+        extra = {}
+        kwonly_names = [x.arg for x in a.kwonlyargs]
+        splat = kwargs.pop("**", None) if isinstance(kwargs, dict) else None
+        if splat is not None and not a.kwarg:
+            raise Unsupported(f"** argument passed to {fn.__qualname__}, which has no ** parameter")
         for k, v in kwargs.items():
             if k in given:
                 raise Unsupported("duplicate argument")
+            if k not in names and k not in kwonly_names:
+                if not a.kwarg:
+                    raise Unsupported(f"unexpected keyword {k} for {fn.__qualname__}")
+                extra[k] = v
+                continue
             given[k] = v
+        if a.kwarg:
+            # **kwargs: a new dict holding the extra keyword arguments (at an entry point: whatever the caller passed)
+            d = self.tmp(a.kwarg.arg)
+            self.emit(("newShallow", d))
+            if fr.depth == 0:
+                t = self.tmp("kw")
+                self.emit(("ext", t))
+                self.emit(("store", d, fid(ELEM), t))
+            for v in extra.values():
+                if not v.is_prim():
+                    self.emit(("store", d, fid(ELEM), self.materialise(v).var))
+            if splat is not None and not splat.is_prim():
+                t = self.tmp("kw")
+                self.emit(("load", t, self.materialise(splat).var, fid(ELEM)))
+                self.emit(("store", d, fid(ELEM), t))
+            fr.locals[a.kwarg.arg] = AV(var=d, ty=DictOf(UNKNOWN))
+            fr.vars[a.kwarg.arg] = d
         kwonly = [x.arg for x in a.kwonlyargs]
         kwdefaults = dict(zip(kwonly, a.kw_defaults))
         for n, d in list(zip(names, defaults)) + [(k, kwdefaults[k]) for k in kwonly]:
@@ -427,6 +501,8 @@ class Lowerer:
     def bind_local(self, fr: Frame, name: str, av: AV):
         """assign to a Python local: every local has a dedicated IR variable"""
         cur = fr.locals.get(name)
+        if name in fr.declared_prim:
+            av = AV(ty=PRIM)
         if av.items is not None and av.display == "list":
             av = self.materialise(av)
         if av.items is not None and not av.is_prim():
@@ -444,7 +520,7 @@ class Lowerer:
             fr.locals[name] = AV(var=v, ty=PRIM)
         else:
             self.emit(("mov", v, av.var))
-            fr.locals[name] = AV(var=v, ty=av.ty, attrs=av.attrs)
+            fr.locals[name] = AV(var=v, ty=av.ty, attrs=av.attrs, exact=av.exact)
 
     def call_external(self, fn, args, kwargs) -> AV:
         mod = getattr(fn, "__module__", "") or ""
@@ -609,6 +685,13 @@ class Lowerer:
                 self.assign(t, av)
             return 0
         if isinstance(s, ast.AnnAssign):
+            if isinstance(s.target, ast.Name):
+                try:
+                    ann = eval(compile(ast.Expression(s.annotation), "<ann>", "eval"), dict(fr.fn.__globals__))  # noqa: S307
+                    if ty_of_annotation(ann, fr.fn.__globals__) == PRIM:
+                        fr.declared_prim.add(s.target.id)    # `x: int = ...`: trusted like a parameter annotation
+                except Exception:  # noqa: BLE001
+                    pass
             if s.value is not None:
                 self.assign(s.target, self.expr(s.value))
             return 0
@@ -1205,6 +1288,54 @@ class Lowerer:
             return AV(var=v, ty=UNKNOWN)
         raise Unsupported(f"operator {type(op).__name__} on {lt[0]}/{rt[0]}")
 
+    _PLAIN_ATTRS: dict = {}
+
+    @classmethod
+    def plain_attr_types(cls_, c) -> dict:
+        """attribute types of a plain (non-pydantic) class, from the `self.x: T = ...` lines of its __init__"""
+        if c in cls_._PLAIN_ATTRS:
+            return cls_._PLAIN_ATTRS[c]
+        out = {}
+        for k in reversed(c.__mro__):
+            init = k.__dict__.get("__init__")
+            if not isinstance(init, types.FunctionType):
+                continue
+            try:
+                node = func_ast(init)
+            except Exception:  # noqa: BLE001
+                continue
+            for n in ast.walk(node):
+                if isinstance(n, ast.AnnAssign) and isinstance(n.target, ast.Attribute) and \
+                        isinstance(n.target.value, ast.Name) and n.target.value.id == "self":
+                    try:
+                        ann = eval(compile(ast.Expression(n.annotation), "<ann>", "eval"), dict(init.__globals__))  # noqa: S307
+                        out[n.target.attr] = ty_of_annotation(ann, init.__globals__)
+                    except Exception:  # noqa: BLE001
+                        pass
+        cls_._PLAIN_ATTRS[c] = out
+        return out
+
+    @staticmethod
+    def implementations(cls, name):
+        """class-hierarchy analysis: the distinct attributes `name` resolves to in cls and in every subclass"""
+        out, seen = [], set()
+
+        def walk(c):
+            try:
+                raw = inspect.getattr_static(c, name)
+            except AttributeError:
+                raw = None
+            key = id(raw.fget) if isinstance(raw, property) else id(getattr(raw, "__func__", raw))
+            f = raw.fget if isinstance(raw, property) else getattr(raw, "__func__", raw)
+            if raw is not None and key not in seen and not getattr(f, "__isabstractmethod__", False):
+                seen.add(key)
+                out.append((c, raw))
+            for sub in c.__subclasses__():
+                if not (sub.__module__ or "").startswith(CHA_EXCLUDE_MODULES):
+                    walk(sub)
+        walk(cls)
+        return out
+
     def attribute(self, base: AV, name: str) -> AV:
         fr = self.frame
         if base.has_pyobj and base.var is None and base.func is None:
@@ -1234,6 +1365,10 @@ class Lowerer:
         ty = base.ty
         if ty[0] in ("list", "dict", "htuple"):
             return AV(bmeth=name, bound=base)
+        if ty[0] == "inst" and (ty[1].__module__ or "") in ("re", "builtins", "decimal", "fractions", "datetime"):
+            if name in PURE_METHOD_NAMES or name in LIST_READERS:
+                return AV(bmeth=name, bound=base)
+            raise Unsupported(f"attribute {name} of a {ty[1].__module__}.{ty[1].__name__} object")
         if ty[0] == "inst":
             cls = ty[1]
             try:
@@ -1253,6 +1388,17 @@ class Lowerer:
                 x = self.tmp(name)
                 self.emit(("load", x, base.var, fid(name)))
                 return AV(var=x, ty=fty)
+            if not base.exact and isinstance(raw, (property, types.FunctionType)) or \
+                    (not base.exact and getattr(raw, "__isabstractmethod__", False)):
+                impls = self.implementations(cls, name)
+                if len(impls) > 1 or (impls and impls[0][1] is not raw):
+                    if all(isinstance(r, property) for _, r in impls):
+                        return self.one_of([self.call_function(r.fget, [base], {}, self_cls=c) for c, r in impls])
+                    if all(isinstance(r, types.FunctionType) for _, r in impls):
+                        return AV(func=impls[0][1], bound=base, alts=[(c, r) for c, r in impls])
+                    raise Unsupported(f"{cls.__name__}.{name} is overridden with different kinds of attribute")
+                if not impls:
+                    raise Unsupported(f"{cls.__name__}.{name} has no concrete implementation")
             if isinstance(raw, property):
                 return self.call_function(raw.fget, [base], {}, self_cls=cls)
             if isinstance(raw, types.FunctionType):
@@ -1265,7 +1411,7 @@ class Lowerer:
                 return AV(ty=PRIM)
             if raw is None or not callable(raw):
                 # instance attribute of a plain class (set in __init__), or a class-level object
-                aty = (base.attrs or {}).get(name, UNKNOWN)
+                aty = (base.attrs or {}).get(name) or self.plain_attr_types(cls).get(name, UNKNOWN)
                 if aty == PRIM:
                     return AV(ty=PRIM)
                 x = self.tmp(name)
@@ -1273,6 +1419,10 @@ class Lowerer:
                 return AV(var=x, ty=aty)
             raise Unsupported(f"attribute {cls.__name__}.{name} of kind {type(raw).__name__}")
         if ty == UNKNOWN:
+            if name in LIST_MUTATORS or name in LIST_POPS or name in LIST_READERS or name in PURE_METHOD_NAMES or \
+                    name in ("model_copy", "model_dump"):
+                # a value of unknown type: the method is taken by NAME (builtin containers, strings, pydantic models)
+                return AV(bmeth=name, bound=base)
             x = self.tmp(name)
             self.emit(("load", x, base.var, fid(name)))
             return AV(var=x, ty=UNKNOWN, bmeth=None)
@@ -1314,7 +1464,10 @@ class Lowerer:
         kwargs = {}
         for k in e.keywords:
             if k.arg is None:
-                raise Unsupported("**kwargs at a call")
+                if "**" in kwargs:
+                    raise Unsupported("two ** arguments at a call")
+                kwargs["**"] = self.expr(k.value)
+                continue
             kwargs[k.arg] = self.expr(k.value)
         return args, kwargs
 
@@ -1345,6 +1498,23 @@ class Lowerer:
         # builtin container methods
         if callee.bmeth is not None:
             return self.container_method(callee.bound, callee.bmeth, args, kwargs)
+        if callee.func is not None and callee.alts:
+            # a method that subclasses override: any of the implementations may run
+            results = []
+            ret = None
+            alts_ir = None
+            for c, f in callee.alts:
+                self.push()
+                narrowed = AV(var=callee.bound.var, ty=Inst(c), attrs=callee.bound.attrs) if callee.bound.var is not None \
+                    else callee.bound
+                r = self.apply(AV(func=f, bound=narrowed), args, kwargs, node)
+                if ret is None:
+                    ret = self.fresh_shape(r)
+                self.move_into(ret, r)
+                one = self.pop()
+                alts_ir = one if alts_ir is None else choice(alts_ir, one)
+            self.emit(alts_ir)
+            return ret
         if callee.func is not None:
             fn = callee.func
             recv = callee.bound
@@ -1365,6 +1535,21 @@ class Lowerer:
                 v = self.tmp("copy")
                 self.emit(("copy", v, m.var))
                 return AV(var=v, ty=m.ty)
+            if name in ("model_validate", "model_validate_json", "model_construct", "parse_obj") and \
+                    (fn.__module__ or "").startswith("pydantic") and recv is not None and recv.has_pyobj:
+                # pydantic builds a new model from plain data
+                for a in list(args) + list(kwargs.values()):
+                    if a.var is None and not a.is_prim():
+                        self.materialise(a)
+                cls_ = recv.pyobj
+                v = self.tmp(cls_.__name__)
+                self.alloc(v, "new" if self.is_deep_class(cls_) else "newShallow")
+                for a in args:
+                    if not a.is_prim():
+                        t = self.tmp("fld")
+                        self.emit(("load", t, self.materialise(a).var, fid(ELEM)))
+                        self.emit(("store", v, fid(ELEM), t))
+                return AV(var=v, ty=Inst(cls_), exact=True)
             if name in ("model_dump", "dict", "model_dump_json", "json") and (fn.__module__ or "").startswith("pydantic"):
                 v = self.tmp("dump")
                 self.emit(("new", v))
@@ -1379,6 +1564,12 @@ class Lowerer:
             if isinstance(o, types.BuiltinFunctionType) or callable(o) and getattr(o, "__module__", "") in ("builtins", "math", "typing"):
                 return self.builtin(o, args, kwargs, node)
             raise Unsupported(f"call of object {o!r}")
+        if callee.is_prim() and callee.func is None and not callee.has_pyobj:
+            # a method of an immutable value (str.format, float.is_integer, ...)
+            for a in list(args) + list(kwargs.values()):
+                if a.var is None and not a.is_prim():
+                    self.materialise(a)
+            return AV(ty=PRIM)
         if callee.ty == UNKNOWN and callee.var is not None:
             raise Unsupported(f"call through a value of unknown type ({ast.unparse(node.func)}) in {fr.fn.__qualname__}")
         raise Unsupported(f"call of {ast.unparse(node.func)}")
@@ -1447,12 +1638,12 @@ class Lowerer:
                     continue
                 m = self.materialise(a)
                 self.emit(("store", v, fid(k), m.var))
-            return AV(var=v, ty=Inst(cls))
+            return AV(var=v, ty=Inst(cls), exact=True)
         if mod.startswith(INLINE_MODULES):
             init = cls.__dict__.get("__init__") or next((c.__dict__["__init__"] for c in cls.__mro__ if "__init__" in c.__dict__ and c is not object), None)
             v = self.tmp(cls.__name__)
             self.emit(("newShallow", v))
-            obj = AV(var=v, ty=Inst(cls), attrs={})
+            obj = AV(var=v, ty=Inst(cls), attrs={}, exact=True)
             if init is not None:
                 self.call_function(init, [obj] + args, kwargs, self_cls=cls)
             return obj
@@ -1465,6 +1656,12 @@ class Lowerer:
         return issubclass(cls, (Entity, ReducerState)) or (cls.__module__ or "").startswith("simaple.core")
 
     def container_method(self, recv: AV, name: str, args, kwargs) -> AV:
+        if name == "model_copy":
+            return self.model_copy(recv, kwargs)
+        if name == "model_dump":
+            v = self.tmp("dump")
+            self.emit(("new", v))
+            return AV(var=v, ty=DictOf(PRIM))
         m = self.materialise(recv)
         ety = m.ty[1] if m.ty[0] in ("list", "dict") else UNKNOWN
         if name in LIST_MUTATORS:
@@ -1508,6 +1705,15 @@ class Lowerer:
             return self.build_container([], [m], "list" if m.ty[0] != "dict" else "dict")
         if name in ("index", "count", "__len__", "__contains__"):
             return AV(ty=PRIM)
+        if name in PURE_METHOD_NAMES:
+            for a in list(args) + list(kwargs.values()):
+                if a.var is None and not a.is_prim():
+                    self.materialise(a)
+            if m.ty == PRIM:
+                return AV(ty=PRIM)
+            x = self.tmp(name)
+            self.emit(("ext", x))     # e.g. a match object / a new string: never a target of a store below
+            return AV(var=x, ty=UNKNOWN)
         raise Unsupported(f"container method {name}")
 
     def load_elem(self, m: AV, ety) -> AV:
@@ -1578,12 +1784,88 @@ def lower_all():
     return entries
 
 
+def patch_classes():
+    """every concrete subclass of simaple.spec.patch.Patch defined in the library"""
+    import simaple.data.jobs.patch  # noqa: F401
+    import simaple.data.jobs.definitions as defs
+    from simaple.spec.patch import Patch
+    for m in pkgutil.walk_packages(defs.__path__, defs.__name__ + "."):
+        importlib.import_module(m.name)
+
+    def allsub(c):
+        for sub in c.__subclasses__():
+            yield sub
+            yield from allsub(sub)
+    return sorted((c for c in set(allsub(Patch)) if not inspect.isabstract(c) and
+                   c.__module__ in ("simaple.spec.patch", "simaple.data.jobs.patch")),
+                  key=lambda c: (c.__module__, c.__name__))
+
+
+def lower_patches():
+    """`apply(raw)` of every patch class: entry program + the recursive procedure it calls (if any)"""
+    entries = []
+    from simaple.spec.repository import SpecRepository
+    from simaple.spec.spec import Spec
+    def subs(c):
+        for x in c.__subclasses__():
+            yield x
+            yield from subs(x)
+    repos = sorted((c for c in set(subs(SpecRepository)) if not inspect.isabstract(c) and c.__module__.startswith("simaple.")),
+                   key=lambda c: c.__name__)
+    targets = [(cls, "apply") for cls in patch_classes()] + [(Spec, "interpret")] + \
+              [(r, m) for r in repos for m in ("get", "get_all")]
+    for cls, meth in targets:
+        prog = Program()
+        lw = Lowerer(prog)
+        ent = {"cls": cls.__name__, "module": cls.__module__, "method": meth, "kind": "patch"}
+        try:
+            res, argvars, selfv = lw.lower_method(cls, meth, "patch")
+            ir = seq(lw.blocks[0])
+            body = ("skip",)
+            if lw.rec_fn is not None:
+                fn, scls = lw.rec_fn
+                lw.blocks = [[]]
+                node = func_ast(fn)
+                params = [a.arg for a in node.args.posonlyargs + node.args.args]
+                hints = {}
+                try:
+                    hints = typing.get_type_hints(fn)
+                except Exception:
+                    pass
+                avs = []
+                for i, pn in enumerate(params):
+                    v = prog.newvar(f"{pn}@rec")
+                    if i == 0 and scls is not None and pn in ("self", "cls"):
+                        avs.append(AV(var=v, ty=Inst(scls), exact=(scls is cls)))
+                        continue
+                    ty = ty_of_annotation(hints.get(pn, inspect.Parameter.empty), fn.__globals__)
+                    if ty == PRIM:
+                        lw.emit(("havoc", v))
+                    avs.append(AV(var=v, ty=ty))
+                lw.stack = []
+                lw.call_function(fn, avs, {}, self_cls=scls)
+                body = seq(lw.blocks[0])
+            joint = seq([ir, body])
+            _res, taint = choose_kinds(joint, prog)
+            flex = chosen_flex(joint, prog, taint)
+            ent.update({"prog": resolve(ir, flex), "body": resolve(body, flex), "taint": taint,
+                        "nvars": len(prog.varnames), "error": None, "recursive": lw.rec_fn[0].__qualname__ if lw.rec_fn else None})
+        except Unsupported as ex:
+            ent.update({"prog": None, "error": str(ex)})
+        except RecursionError:
+            ent.update({"prog": None, "error": "recursion limit"})
+        entries.append(ent)
+    return entries
+
+
 def to_lean(ir) -> str:
     k = ir[0]
     if k == "skip":
         return ".skip"
     if k == "abort":
         return ".abort"
+    if k == "call":
+        return f".call {ir[1]}"
     if k == "seq":
         parts = ir[1]
         s = to_lean(parts[-1])
@@ -1648,6 +1930,26 @@ def generate(repo: str) -> str:
     for k, rows in enumerate(chunks):
         lines.append(f"def table{k} : List Entry := [\n" + ",\n".join(sorted(rows)) + "\n]\n")
     lines.append("def table : List Entry := " + " ++ ".join(f"table{k}" for k in range(NCHUNKS)) + "\n")
+    # ---- the patch classes (C02: building never writes the shared specs it reads)
+    pents = lower_patches()
+    prow = []
+    for e in pents:
+        if e["prog"] is None:
+            continue
+        pb, bb = to_lean(e["prog"]), to_lean(e["body"])
+        for nm, txt in (("q_" + hashlib.sha1(pb.encode()).hexdigest()[:12], pb), ("q_" + hashlib.sha1(bb.encode()).hexdigest()[:12], bb)):
+            if nm not in progs:
+                progs[nm] = txt
+                lines.append(f"def {nm} : Stmt :=\n  {txt}\n")
+        api = "true" if e["cls"] == "Spec" or "Repository" in e["cls"] else "false"
+        prow.append(f'  ⟨"{e["cls"]}.{e["method"]}", {api}, {e["taint"]}, {e["nvars"]}, q_{hashlib.sha1(bb.encode()).hexdigest()[:12]}, '
+                    f'q_{hashlib.sha1(pb.encode()).hexdigest()[:12]}⟩')
+    lines.append("structure PatchEntry where\n  cls : String\n  api : Bool\n  taint : List Field\n  nvars : Nat\n  body : Stmt\n  prog : Stmt\n")
+    lines.append("/-- `apply(raw)` of every patch class of the library, with the recursive procedure it calls -/")
+    lines.append("def patchTable : List PatchEntry := [\n" + ",\n".join(prow) + "\n]\n")
+    lines.append("def patchesNotLowered : List (String × String) := [" +
+                 ", ".join(f'("{e["cls"]}", "{(e["error"] or "").replace(chr(34), chr(39))[:120]}")' for e in pents if e["prog"] is None) + "]\n")
+    bad = bad  # components
     lines.append("/-- methods the translator could not lower (must be empty for the coverage theorem) -/")
     lines.append("def notLowered : List (String × String × String) := [" +
                  ", ".join(f'("{e["cls"]}", "{e["method"]}", "{(e["error"] or "").replace(chr(34), chr(39))[:120]}")' for e in bad) + "]\n")
@@ -1721,7 +2023,13 @@ def choose_kinds(ir, prog: Program):
         cands.sort(key=lambda c: 0 if c[1] == "new" else 1)
         tried.add(cands[0])
         flex[cands[0][0]] = cands[0][1]
+    prog.last_flex = flex
     return resolve(ir, flex), sorted(taint)
+
+
+def chosen_flex(ir, prog: Program, taint):
+    """the allocation kinds picked by the last choose_kinds call on this program"""
+    return prog.last_flex
 
 
 # ------------------------------------------------------------------------------------------------ diagnostics
@@ -1740,7 +2048,7 @@ def py_check(ir, env, names, path="", report=None, T=()):
         e = list(env); e[ir[1]] = "fresh"; return e
     if k == "newShallow":
         e = list(env); e[ir[1]] = "shallow"; return e
-    if k == "ext":
+    if k in ("ext", "call"):
         e = list(env); e[ir[1]] = "shared"; return e
     if k == "load":
         e = list(env); e[ir[1]] = "fresh" if deep(env[ir[2]]) and ir[3] not in T else "shared"; return e
@@ -1823,10 +2131,25 @@ if __name__ == "__main__":
     ents = lower_all()
     ok = [e for e in ents if e["prog"] is not None]
     print(f"{len(ok)}/{len(ents)} methods lowered")
+    pe = lower_patches()
+    print(f"{sum(1 for e in pe if e['prog'] is not None)}/{len(pe)} patch classes lowered")
+    for e in pe:
+        if e["prog"] is None:
+            print("  ", e["cls"], e["error"])
+        else:
+            rep = []
+            names = ["?"] * e["nvars"]
+            ok = py_check(seq([e["prog"], e["body"]]), ["shared"] * e["nvars"], names, report=rep, T=e["taint"])
+            print("  ", e["cls"] + "." + e["method"], "recursive:", e["recursive"], "taint", e["taint"], "WF" if ok is not None else ("REJECTED " + str([r[-1] for r in rep[:2]])))
     print("externals (not inlined, trusted not to write their arguments):", EXTERNALS)
     import collections
     errs = collections.Counter(e["error"] for e in ents if e["prog"] is None)
     for k, v in errs.most_common():
         print(v, k)
-    if len(sys.argv) > 3:
+    if len(sys.argv) > 3 and sys.argv[2] == "--patch":
+        for e in pe:
+            if e["cls"] == sys.argv[3] and e["prog"] is not None:
+                names = [f"v{i}" for i in range(e["nvars"])]
+                print("ENTRY"); show(e["prog"], names); print("BODY"); show(e["body"], names)
+    elif len(sys.argv) > 3:
         diagnose(sys.argv[2], sys.argv[3])
